@@ -31,7 +31,7 @@ const NUM_LEAVES: [&str; 23] = [
     "0", "1", "-7", "42", "9223372036854775807", "-9223372036854775808", "9223372036854775808", "18446744073709551615", "123456789012345678901234567890", "1.5", "-0.25", "1e2", "5.0", "1E-3",
     "0.1", "1e400", "-0", "12345678.12345678", "1e19", "-1e19", "9223372036854775808.0", "2e3", "1.0",
 ];
-const STR_LEAVES: [&str; 32] = ["", "abc", "12", "-3", "1.5", "true", "2021-03-04 05:06:07", "2021-13-04 05:06:07", "1:02:03", "x:y", "é😀", "q\"uote", "back\\slash", "line\nbreak", "+42", "007", "-0", ".5", "5.", " 42", "42 ", "2.5\n", " true", "TRUE", "false", "1e3", "0x10", "1_000", "٤٢", "-.5e1", "+1.5", "00:00:01"];
+const STR_LEAVES: [&str; 35] = ["000000000000000000000042", "-00000000000000000000007", "0000000000000000000000.5", "", "abc", "12", "-3", "1.5", "true", "2021-03-04 05:06:07", "2021-13-04 05:06:07", "1:02:03", "x:y", "é😀", "q\"uote", "back\\slash", "line\nbreak", "+42", "007", "-0", ".5", "5.", " 42", "42 ", "2.5\n", " true", "TRUE", "false", "1e3", "0x10", "1_000", "٤٢", "-.5e1", "+1.5", "00:00:01"];
 
 fn gen_leaf(t: &mut Tape) -> J {
     match t.weighted(&[5, 5, 2, 1]) {
@@ -45,6 +45,12 @@ fn gen_leaf(t: &mut Tape) -> J {
 fn gen_doc(t: &mut Tape, depth: usize) -> J {
     if depth == 0 || t.chance(1, 3) {
         return gen_leaf(t);
+    }
+    if t.chance(1, 12) {
+        // an array of arrays (a two-dimensional column)
+        let texts = t.chance(1, 3);
+        let rows = 1 + t.draw(3);
+        return J::Arr((0..rows).map(|_| J::Arr((0..t.draw(4)).map(|_| if texts { J::Str(t.pick(&["a", "b", ""]).to_string()) } else { J::Num(t.pick(&["1", "2", "-3", "1.5", "9223372036854775808"]).to_string()) }).collect())).collect());
     }
     if t.chance(1, 3) {
         let n = t.draw(4);
@@ -209,6 +215,12 @@ fn type_for(t: &mut Tape, leaf: &J) -> (String, Option<Modifier>) {
         }
         J::Bool(_) => "BOOLEAN",
         J::Arr(items) => match items.first() {
+            // an array of arrays: a two-dimensional column type
+            Some(J::Arr(inner)) => match inner.first() {
+                Some(J::Str(_)) => "TEXT[][]",
+                Some(J::Num(n)) if !J::is_integer_literal(n) => "REAL[][]",
+                _ => "INT[][]",
+            },
             Some(J::Num(n)) if J::is_integer_literal(n) => "INT[]",
             Some(J::Num(_)) => "REAL[]",
             Some(J::Str(_)) => "TEXT[]",
